@@ -164,6 +164,14 @@ pub const CB_PANIC: u32 = 666;
 /// only): it must be handed the memoizer it is running on ("shared while in use")
 pub const CB_REENTER: u32 = 777;
 
+/// x == 778: the callback does a lookup of the fixed key C "zz" on ANOTHER memoizer (the live handle with the largest
+/// index below the one the lookup runs on) and appends its outcome: memoizers are independent of each other
+pub const CB_NESTED: u32 = 778;
+
+thread_local! {
+    static PARTNER: RefCell<Option<Handle>> = RefCell::new(None);
+}
+
 thread_local! {
     /// (the process's IntlMemoizer, the language and the handle the current lookup runs on)
     static REENTER: RefCell<Option<(*mut IntlMemoizer, LanguageIdentifier, Rc<SeqMemo>)>> = RefCell::new(None);
@@ -173,6 +181,16 @@ fn callback(i: &Inst, x: u32) -> String {
     let _s = Section::enter();
     if x == CB_PANIC {
         panic!("callback panic");
+    }
+    if x == CB_NESTED {
+        let partner = PARTNER.with(|p| p.borrow_mut().take());
+        let inner = Lookup { key: Key::C("zz".to_string()), x: 0, via_kind: false };
+        let r = match &partner {
+            Some(Handle::Seq(m)) => lookup_seq(m, &inner),
+            Some(Handle::Conc(m)) => lookup_conc(m, &inner),
+            None => Err("no-partner".to_string()),
+        };
+        return format!("{}/{}/{}/{}/{}+inner={}", i.serial, i.ty, i.lang, i.arg, x, show_outcome(&r));
     }
     if x == CB_REENTER {
         let ctx = REENTER.with(|r| r.borrow_mut().take());
@@ -215,7 +233,8 @@ fn canon_u32(s: &str) -> Option<u32> {
 }
 
 fn parse_lang(l: &str) -> Option<LanguageIdentifier> {
-    if !["en", "en-US", "pl", "fr-CA", "de", "und", "ca", "ca-valencia", "de-1901", "de-1996"].contains(&l) {
+    // (the two-letter tail: enough distinct languages for histories that fill the per-language table)
+    if !["en", "en-US", "pl", "fr-CA", "de", "und", "ca", "ca-valencia", "de-1901", "de-1996", "aa", "ab", "af", "ak", "am", "an", "ar", "as", "az", "be", "bg", "bm", "bn", "bo", "br", "bs", "cs", "cy", "da", "dz", "ee", "el", "eo", "es", "et", "eu", "fa", "ff", "fi", "fo"].contains(&l) {
         return None;
     }
     let id: LanguageIdentifier = l.parse().ok()?;
@@ -389,6 +408,37 @@ fn run_seq(conc: bool, body: &str) -> String {
                 (Some(h), Some(l)) if l.x == CB_REENTER && (conc || origin.get(h as usize).cloned().flatten().is_none()) => {
                     let _ = (h, l);
                     "bad-op".to_string() // the re-entrant callback is only defined for handles from get_for_lang
+                }
+                (Some(h), Some(l)) if l.x == CB_NESTED => {
+                    // partner = the live handle with the largest index below h
+                    let own_class = match handles.get(h as usize) {
+                        Some(Some((_, c))) => Some(*c),
+                        _ => None,
+                    };
+                    // (a DIFFERENT memoizer object: handles of one language share the allocation)
+                    let partner = (0..h as usize).rev().find_map(|j| match handles.get(j) {
+                        Some(Some((_, c))) if Some(*c) == own_class => None,
+                        Some(Some((hd, _))) => Some(match hd {
+                            Handle::Seq(m) => Handle::Seq(m.clone()),
+                            Handle::Conc(m) => Handle::Conc(m.clone()),
+                        }),
+                        _ => None,
+                    });
+                    match (partner, handles.get(h as usize)) {
+                        (None, _) => "bad-op".to_string(),
+                        (Some(p), Some(Some((hd, _)))) => {
+                            PARTNER.with(|c| *c.borrow_mut() = Some(p));
+                            let r = match hd {
+                                Handle::Seq(m) => lookup_seq(m, &l),
+                                Handle::Conc(m) => lookup_conc(m, &l),
+                            };
+                            PARTNER.with(|c| *c.borrow_mut() = None);
+                            let (n, evs) = events_since(seen);
+                            seen = n;
+                            format!("{}>{}", evs.join(","), show_outcome(&r))
+                        }
+                        (Some(_), _) => "dead".to_string(),
+                    }
                 }
                 (Some(h), Some(l)) => match handles.get(h as usize) {
                     Some(Some((hd, _))) => {
